@@ -34,6 +34,7 @@ res["builds"] = rc == 0
 rc, o = sh("go test -vet=off -count=1 ./... 2>&1 | grep -v '^ok\\|no test files' ; exit ${PIPESTATUS[0]}", timeout=2400)
 res["suite_passes_with_patch"] = rc == 0
 if rc != 0: res["suite_output"] = o[-1500:]
+os.makedirs(pkgdir, exist_ok=True)  # a demo may live in a directory of its own
 shutil.copy(f"{out}/demo_test.go", demo_dst)
 rc, o = sh(m)
 res["demo_fails_with_patch"] = rc != 0
